@@ -145,7 +145,7 @@ def make_histories(p, rng, quick):
         elif k == 6:
             d = ["get_res0_cells"]
         elif k == 7:
-            d = [rng.choice(["get_num_cells", "cell_area"]), rng.randrange(-1, 31)]
+            d = [rng.choice(["get_num_cells", "cell_area", "get_num_cells", "cell_area", "get_num_cells_float", "cell_area_float"]), rng.randrange(-1, 31)]
         elif k == 8:
             c = rcell(28)
             kids = ser.cell_to_children(c)
